@@ -46,6 +46,19 @@ Section Huge.
         pose proof (sumf_ge (hfr g h) _ _ _ Ht). lia.
   Qed.
 
+  (* a completely free entry lies inside the managed range *)
+  Lemma ent_full_in_range s h : Inv g s -> rd_ent s h = Some HF -> (h + 1) * HF <= ms_frames s.
+  Proof.
+    intros I Hrd. pose proof (entv_rd s h HF Hrd) as Ec. pose proof (ROWS_pos g wf) as PR. pose proof (HF_lt_MARK g wf) as HM.
+    pose proof (HF_pos g) as HP.
+    assert (Hh : h < nbf g (ms_frames s)) by (apply (ent_nz_lt g s h I); rewrite Ec; lia).
+    assert (Hne : entv s h <> MARK) by (rewrite Ec; lia).
+    pose proof (K1 g wf s h I Hh Hne) as K. rewrite Ec in K.
+    assert (K1o : goor g s h = 0) by lia.
+    pose proof (gsum_zero g _ K1o (ROWS - 1) 63 ltac:(lia) ltac:(lia)) as O. cbv beta in O. unfold oor, fidx in O.
+    pose proof (HF_64 g wf). destruct (N.leb_spec (ms_frames s) (h * HF + (ROWS - 1) * 64 + 63)); [cbn in O; lia|]. nia.
+  Qed.
+
   (* ----- a completely free entry is claimed: HF -> MARK ----- *)
   Lemma inv_ent_claim s t x0 x' h held' :
     Inv g s -> nth_error (ms_pool s) t = Some x0 -> rd_ent s h = Some HF ->
@@ -92,5 +105,207 @@ Section Huge.
       pose proof (Hfrs0 r i H1 H2). lia.
     - rewrite Hnd. assert (needsC g h x0 = 0) by (apply (Hq x0); eapply nth_error_In; exact Ht).
       assert (sumf (needsC g h) (ms_pool s) = 0) by (apply sumf_all_zero; intros x Hx; apply (Hq x Hx)). lia.
+  Qed.
+
+  (* ----- threads whose ghost is entry-level ownership of the entries [a, a + cnt) ----- *)
+  Record ent_own (x : thr) (a cnt : N) : Prop := {
+    EO_fr : forall h r i, r < ROWS -> i < 64 -> fr g h r i x = b2n (inb a cnt h);
+    EO_hfr : forall h, hfr g h x = b2n (inb a cnt h);
+    EO_tr : forall h r, tr g h r x = 0;
+    EO_pend : forall h, pend g h x = 0;
+    EO_trc : forall h, trcount g h x = 0;
+    EO_nd : forall h, needsC g h x = 0
+  }.
+  Lemma ent_own_ghuge x a cnt : ghost_of g x = ghuge (a * HF) (cnt * HF) -> ent_own x a cnt.
+  Proof.
+    intros E. pose proof (HF_pos g) as HP.
+    constructor; intros; unfold fr, tr, pend, trcount, needsC, hfr; rewrite E; cbn [g_h own_lo own_n tr_lo tr_n p_n nd hu ghuge andb].
+    - unfold fidx. rewrite <- N.add_assoc. rewrite (inb_ents g a cnt h (r * 64 + i)); [reflexivity|]. apply (rowbit_lt g wf); assumption.
+    - replace (h * HF) with (h * HF + 0) by lia. rewrite (inb_ents g a cnt h 0) by lia. reflexivity.
+    - unfold inb. lia.
+    - destruct (h =? 0); reflexivity.
+    - destruct (h =? 0); reflexivity.
+    - lia.
+  Qed.
+  Lemma ent_own_idle l a : ent_own (TIdle l) a 0.
+  Proof. constructor; intros; gsimp; unfold inb; try lia; destr_if; lia. Qed.
+
+  Lemma gsame_ent_own s x0 x' a cnt a' cnt' h : ent_own x0 a cnt -> ent_own x' a' cnt' ->
+    inb a' cnt' h = inb a cnt h -> gsame g s x0 x' h.
+  Proof.
+    intros [F0 H0 T0 P0 C0 N0] [F1 H1 T1 P1 C1 N1] E.
+    constructor; intros; rewrite ?F0, ?F1, ?H0, ?H1, ?T0, ?T1, ?P0, ?P1, ?C0, ?C1, ?N0, ?N1 by assumption; rewrite ?E; lia.
+  Qed.
+
+  (* a held block of huge order in entry coordinates *)
+  Lemma cover_huge_blk a k h r i : (hord g <= k)%nat -> r < ROWS -> i < 64 ->
+    cover (a * HF, k) (fidx g h r i) = inb a (pow2 (k - hord g)) h.
+  Proof.
+    intros Hk Hr Hi. unfold cover, fidx. cbn [fst snd]. rewrite (pow2_split (hord g) k Hk), <- HF_pow2, <- N.add_assoc.
+    apply (inb_ents g). apply (rowbit_lt g wf); assumption.
+  Qed.
+  Lemma hugeb_huge_blk a k h : (hord g <= k)%nat -> hugeb g h (a * HF, k) = b2n (inb a (pow2 (k - hord g)) h).
+  Proof.
+    intros Hk. unfold hugeb, cover. cbn [fst snd]. destruct (Nat.leb_spec (hord g) k); [|lia]. cbn [andb].
+    rewrite (pow2_split (hord g) k Hk), <- HF_pow2. replace (h * HF) with (h * HF + 0) by lia.
+    pose proof (HF_pos g). rewrite (inb_ents g a _ h 0) by lia. reflexivity.
+  Qed.
+
+  (* ----- the ghost at HC / HU in entry coordinates ----- *)
+  Lemma own_put_HC fm c gi q : cwf g fm c = true -> (hord g <= c_order c)%nat -> is_put c = true ->
+    ent_own (TRun c (HC gi q)) (c_huge g c + q) (c_hnum g c - q).
+  Proof.
+    intros Hc Hk Hp. apply ent_own_ghuge. cbn [ghost_of gpc]. rewrite Hp.
+    destruct (huge_call_aligned g fm c Hc Hk (is_put_not_get c Hp)) as [E1 E2].
+    rewrite E1, E2, N.mul_sub_distr_r, N.mul_add_distr_r. reflexivity.
+  Qed.
+  Lemma own_get_HC c gi q : is_put c = false -> ent_own (TRun c (HC gi q)) (group_h g c gi) q.
+  Proof. intros Hp. apply ent_own_ghuge. cbn [ghost_of gpc]. rewrite Hp. reflexivity. Qed.
+  Lemma own_get_HU c gi q : is_put c = false -> ent_own (TRun c (HU gi q)) (group_h g c gi) (q + 1).
+  Proof. intros Hp. apply ent_own_ghuge. cbn [ghost_of gpc]. rewrite Hp. reflexivity. Qed.
+
+  Definition next_group_thr (c : call) (gi : N) : thr :=
+    if gi + 1 <? group_cnt g c then TRun c (HC (gi + 1) 0) else TIdle (Some (Err EMemory)).
+  Lemma next_group_eq s t c gi : next_group g s t c gi = set_thr s t (next_group_thr c gi).
+  Proof. unfold next_group, next_group_thr. destruct (gi + 1 <? group_cnt g c); [reflexivity|apply finish_err']. Qed.
+  Lemma next_group_own c gi : is_put c = false -> exists a, ent_own (next_group_thr c gi) a 0.
+  Proof.
+    intros Hp. unfold next_group_thr. destruct (gi + 1 <? group_cnt g c).
+    - exists (group_h g c (gi + 1)). apply own_get_HC. exact Hp.
+    - exists 0. apply ent_own_idle.
+  Qed.
+  Lemma next_group_local fm c gi q : cwf g fm c = true -> lpc g fm c (HC gi q) = true ->
+    local_b g fm (next_group_thr c gi) = true /\ isBad (next_group_thr c gi) = 0.
+  Proof.
+    intros Hc L. cbn [lpc] in L. unfold next_group_thr. destruct (gi + 1 <? group_cnt g c) eqn:E; [|split; reflexivity].
+    split; [|reflexivity]. cbn [local_b lpc]. assert (0 <? c_hnum g c = true) by (apply N.ltb_lt, pow2_pos). lia.
+  Qed.
+
+  Lemma step_HC s t c gi q c0 : Inv g s -> nth_error (ms_pool s) t = Some (TRun c (HC gi q)) ->
+    Inv g (fst (mstep g s t c0)).
+  Proof.
+    intros I Ht. pose proof (local_of' g s t _ I Ht) as L. cbn [local_b] in L.
+    apply andb_true_iff in L. destruct L as [Hc L]. pose proof L as L0. cbn [lpc] in L.
+    assert (Hk : (hord g <= c_order c)%nat) by lia.
+    unfold mstep. rewrite Ht. cbv beta iota zeta.
+    destruct (huge_group g (ms_frames s) c gi Hc Hk) as [Hgrp Hal].
+    set (gh := group_h g c gi) in *. set (h := gh + q).
+    destruct (has_ent g s h I) as [cur Ev]; [unfold h; lia|]. rewrite Ev.
+    pose proof (HF_lt_MARK g wf) as HM. pose proof (HF_pos g) as HP.
+    destruct (is_put c) eqn:Ep.
+    - (* put: the entry is the marker *)
+      assert (Ecur : cas_cur g c = MARK /\ cas_new g c = HF /\ gh = c_huge g c) by (destruct c; try discriminate; auto).
+      destruct Ecur as (E1 & E2 & E3). rewrite E1, E2.
+      pose proof (own_put_HC (ms_frames s) c gi q Hc Hk Ep) as O0. rewrite <- E3 in O0.
+      set (x' := if q + 1 <? c_hnum g c then TRun c (HC gi (q + 1)) else TIdle (Some (Ok 0))).
+      assert (O1 : ent_own x' (gh + (q + 1)) (c_hnum g c - (q + 1))).
+      { unfold x'. destruct (q + 1 <? c_hnum g c) eqn:Eq.
+        - pose proof (own_put_HC (ms_frames s) c gi (q + 1) Hc Hk Ep) as O. rewrite <- E3 in O. exact O.
+        - replace (c_hnum g c - (q + 1)) with 0 by lia. apply ent_own_idle. }
+      destruct (inv_ent_release s t _ x' h cur I Ht Ev) as [Hcur Hinv].
+      + rewrite (EO_hfr _ _ _ O0). unfold inb, h. lia.
+      + intros r i Hr Hi. rewrite (EO_fr _ _ _ O1) by assumption. unfold inb, h. lia.
+      + rewrite (EO_hfr _ _ _ O1). unfold inb, h. lia.
+      + intros r. rewrite (EO_tr _ _ _ O1), (EO_tr _ _ _ O0). reflexivity.
+      + rewrite (EO_pend _ _ _ O1), (EO_pend _ _ _ O0). reflexivity.
+      + rewrite (EO_trc _ _ _ O1), (EO_trc _ _ _ O0). reflexivity.
+      + intros h' Hne. apply (gsame_ent_own s _ _ _ _ _ _ h' O0 O1). unfold inb, h in *. lia.
+      + unfold x'. destruct (q + 1 <? c_hnum g c); reflexivity.
+      + unfold x'. destruct (q + 1 <? c_hnum g c) eqn:Eq; [|reflexivity]. cbn [local_b lpc]. lia.
+      + subst cur. rewrite N.eqb_refl. cbn [fst]. unfold x' in Hinv.
+        destruct (q + 1 <? c_hnum g c); [exact Hinv|].
+        assert (Ef : finish (wr_ent s h HF) t c (match c with CPut _ _ => Ok 0 | _ => Ok (gh * HF) end)
+                     = mk_ent s h HF t (TIdle (Some (Ok 0))) (ms_held s)) by (destruct c; try discriminate; reflexivity).
+        rewrite Ef. exact Hinv.
+    - (* get / get_at: the entry must be completely free *)
+      assert (Ecur : cas_cur g c = HF /\ cas_new g c = MARK) by (destruct c; try discriminate; auto).
+      destruct Ecur as (E1 & E2). rewrite E1, E2.
+      pose proof (own_get_HC c gi q Ep) as O0. fold gh in O0.
+      destruct (N.eqb_spec cur HF) as [->|Hne]; cbn [fst].
+      + pose proof (ent_full_in_range s h I Ev) as Hin.
+        destruct (q + 1 <? c_hnum g c) eqn:Eq.
+        * (* one more entry claimed *)
+          pose proof (own_get_HC c gi (q + 1) Ep) as O1. fold gh in O1.
+          change (Inv g (mk_ent s h MARK t (TRun c (HC gi (q + 1))) (ms_held s))).
+          apply (inv_ent_claim s t _ _ h (ms_held s) I Ht Ev).
+          -- intros r i Hr Hi. rewrite (EO_fr _ _ _ O1), (EO_fr _ _ _ O0) by assumption. unfold inb, h. lia.
+          -- intros r. apply (EO_tr _ _ _ O1).
+          -- apply (EO_pend _ _ _ O1).
+          -- apply (EO_trc _ _ _ O1).
+          -- apply (EO_nd _ _ _ O1).
+          -- intros h' Hne'. apply gsame_H. apply (gsame_ent_own s _ _ _ _ _ _ h' O0 O1). unfold inb, h in *. lia.
+          -- reflexivity.
+          -- cbn [local_b lpc]. lia.
+          -- apply I.
+        * (* the last entry: the block is handed out *)
+          assert (Ehn : c_hnum g c = q + 1) by lia.
+          assert (Ef : finish (wr_ent s h MARK) t c (match c with CPut _ _ => Ok 0 | _ => Ok (gh * HF) end)
+                       = mk_ent s h MARK t (TIdle (Some (Ok (gh * HF)))) ((gh * HF, c_order c) :: ms_held s)).
+          { destruct c; try discriminate; reflexivity. }
+          rewrite Ef.
+          apply (inv_ent_claim s t _ _ h _ I Ht Ev).
+          -- intros r i Hr Hi. rewrite heldc_cons, (cover_huge_blk gh (c_order c) h r i Hk Hr Hi), (EO_fr _ _ _ O0) by assumption.
+             fold (c_hnum g c). rewrite Ehn. gsimp. unfold inb, h. lia.
+          -- intros r. gsimp. unfold inb. lia.
+          -- gsimp. destr_if; lia.
+          -- gsimp. destr_if; lia.
+          -- gsimp. lia.
+          -- intros h' Hne'. constructor; intros; rewrite ?(EO_tr _ _ _ O0), ?(EO_pend _ _ _ O0), ?(EO_trc _ _ _ O0), ?(EO_nd _ _ _ O0);
+               try (gsimp; unfold inb; try lia; destr_if; lia).
+             ++ rewrite heldc_cons, (cover_huge_blk gh (c_order c) h' r i Hk H H0), (EO_fr _ _ _ O0) by assumption.
+                fold (c_hnum g c). rewrite Ehn. gsimp. unfold inb, h in *. lia.
+             ++ rewrite hugec_cons, (hugeb_huge_blk gh (c_order c) h' Hk), (EO_hfr _ _ _ O0).
+                fold (c_hnum g c). rewrite Ehn. gsimp. unfold inb, h in *. lia.
+          -- reflexivity.
+          -- reflexivity.
+          -- constructor; [|apply I]. unfold blk_ok. cbn [fst snd]. apply andb_true_iff. split; [apply N.eqb_eq; exact Hal|].
+             apply N.leb_le. unfold c_hnum in Ehn. rewrite (pow2_split (hord g) (c_order c) Hk), <- HF_pow2, Ehn. unfold h in Hin. lia.
+      + destruct (N.eqb_spec q 0) as [->|Hq].
+        * rewrite next_group_eq. destruct (next_group_own c gi Ep) as [a O1].
+          destruct (next_group_local (ms_frames s) c gi 0 Hc L0) as [Hl Hb].
+          apply (inv_plain g s t _ _ I Ht); [|exact Hb|exact Hl].
+          intros h'. apply (gsame_ent_own s _ _ _ _ _ _ h' O0 O1). unfold inb. lia.
+        * pose proof (own_get_HU c gi (q - 1) Ep) as O1. fold gh in O1. replace (q - 1 + 1) with q in O1 by lia.
+          apply (inv_plain g s t _ _ I Ht); [|reflexivity|].
+          -- intros h'. apply (gsame_ent_own s _ _ _ _ _ _ h' O0 O1). reflexivity.
+          -- cbn [local_b lpc]. rewrite Ep. cbn [negb]. lia.
+  Qed.
+
+  Lemma step_HU s t c gi q c0 : Inv g s -> nth_error (ms_pool s) t = Some (TRun c (HU gi q)) ->
+    Inv g (fst (mstep g s t c0)).
+  Proof.
+    intros I Ht. pose proof (local_of' g s t _ I Ht) as L. cbn [local_b] in L.
+    apply andb_true_iff in L. destruct L as [Hc L]. cbn [lpc] in L.
+    assert (Hk : (hord g <= c_order c)%nat) by lia.
+    assert (Ep : is_put c = false) by (destruct (is_put c); [cbn in L; lia|reflexivity]).
+    assert (L0 : lpc g (ms_frames s) c (HC gi q) = true) by (cbn [lpc]; lia).
+    unfold mstep. rewrite Ht. cbv beta iota zeta.
+    destruct (huge_group g (ms_frames s) c gi Hc Hk) as [Hgrp Hal].
+    set (gh := group_h g c gi) in *. set (h := gh + q).
+    destruct (has_ent g s h I) as [cur Ev]; [unfold h; lia|]. rewrite Ev.
+    assert (Ecur : cas_cur g c = HF /\ cas_new g c = MARK) by (destruct c; try discriminate; auto).
+    destruct Ecur as (E1 & E2). rewrite E1, E2.
+    pose proof (own_get_HU c gi q Ep) as O0. fold gh in O0.
+    set (x' := if q =? 0 then next_group_thr c gi else TRun c (HU gi (q - 1))).
+    assert (O1 : exists a, ent_own x' a q /\ (q <> 0 -> a = gh)).
+    { unfold x'. destruct (N.eqb_spec q 0) as [->|Hq].
+      - destruct (next_group_own c gi Ep) as [a O]. exists a. split; [exact O|congruence].
+      - exists gh. split; [|reflexivity]. pose proof (own_get_HU c gi (q - 1) Ep) as O. fold gh in O.
+        replace (q - 1 + 1) with q in O by lia. exact O. }
+    destruct O1 as (a & O1 & Ha).
+    destruct (inv_ent_release s t _ x' h cur I Ht Ev) as [Hcur Hinv].
+    - rewrite (EO_hfr _ _ _ O0). unfold inb, h. lia.
+    - intros r i Hr Hi. rewrite (EO_fr _ _ _ O1) by assumption. unfold inb, h. destruct (N.eq_dec q 0); [lia|]. rewrite (Ha n). lia.
+    - rewrite (EO_hfr _ _ _ O1). unfold inb, h. destruct (N.eq_dec q 0); [lia|]. rewrite (Ha n). lia.
+    - intros r. rewrite (EO_tr _ _ _ O1), (EO_tr _ _ _ O0). reflexivity.
+    - rewrite (EO_pend _ _ _ O1), (EO_pend _ _ _ O0). reflexivity.
+    - rewrite (EO_trc _ _ _ O1), (EO_trc _ _ _ O0). reflexivity.
+    - intros h' Hne. apply (gsame_ent_own s _ _ _ _ _ _ h' O0 O1). unfold inb, h in *.
+      destruct (N.eq_dec q 0); [lia|]. rewrite (Ha n). lia.
+    - unfold x'. destruct (q =? 0); [apply (next_group_local (ms_frames s) c gi q Hc L0)|reflexivity].
+    - unfold x'. destruct (N.eqb_spec q 0); [apply (next_group_local (ms_frames s) c gi q Hc L0)|].
+      cbn [local_b lpc]. rewrite Ep. cbn [negb]. lia.
+    - subst cur. rewrite N.eqb_refl. cbn [fst]. unfold x' in Hinv.
+      destruct (q =? 0); [rewrite next_group_eq|]; exact Hinv.
   Qed.
 End Huge.
